@@ -347,6 +347,45 @@ def c06(run):
     return out
 
 
+def make_c06_consult(holder):
+    """at every consult of the global stop condition made by a running CMA-ES deme: does its engine report its own
+    termination?  (the library call the deme itself makes after every generation)"""
+
+    def consult(tree, verdict):
+        run = holder["run"]
+        who = run.who
+        if not who or who.startswith("init:"):
+            return
+        d = run.deme_objs.get(who)
+        es = getattr(d, "_cma_es", None)
+        if es is None:
+            return
+        try:
+            st = bool(es.stop())
+        except Exception:  # noqa: BLE001
+            return
+        holder["stops"].append((len(run.ev), who, st))
+
+    return consult
+
+
+def c06_cma_stops(run, stops):
+    """a CMA-ES deme whose engine reported termination after a generation makes no further generation"""
+    out = []
+    for at, who, st in stops:
+        if not st:
+            continue
+        for e in run.ev[at:]:
+            if e[0] == "RUN_END" and e[1] == who:
+                break
+            if e[0] == "EVAL" and e[2] == who:
+                out.append(V("C06/cma-deme-kept-running-after-its-engine-stopped", f"CMA-ES deme {who}: its engine reported termination after a generation, yet the deme evaluated further individuals in the same metaepoch"))
+                break
+        if out:
+            break
+    return out
+
+
 # ------------------------------------------------------------------------------------- C07
 def c07(run):
     out = []
